@@ -266,6 +266,17 @@ class ClassFolder:
                         folder = self.sibling(obj._mod)
                         return hasattr(obj, name) or folder.find_method(obj._cls, name)[1] is not None
                     return hasattr(obj, name)
+                if isinstance(fn, ast.Attribute) and isinstance(fn.value, ast.Name) and fn.value.id == 'inspect' and fn.attr == 'getmembers' and n.args:
+                    obj = lit.ev(n.args[0])
+                    if isinstance(obj, Inst):
+                        folder = self.sibling(obj._mod)
+                        out = {}
+                        for cname in reversed(folder.mro(obj._cls)):
+                            for f_ in folder.mod.classes[cname].body:
+                                if isinstance(f_, ast.FunctionDef):
+                                    out[f_.name] = BoundMethod(obj, cname, f_, folder)
+                        return sorted(out.items())
+                    return []
                 if isinstance(fn, ast.Name) and fn.id == 'partial' and fn.id not in lit.env and n.args:
                     a = lit._seq(n.args)
                     if isinstance(a[0], tuple) and a[0] and a[0][0] in ('f', 'fx'):
@@ -349,6 +360,9 @@ class ClassFolder:
                     return FOLDED_NONE if r is None else r
                 if isinstance(target, ClassRef):
                     return self.sibling(target.modname).new(target.name, *lit._seq(n.args), **lit._kw(n.keywords))
+                if target is not None and any(target is v for v in Lit.PURE.values()):
+                    r = target(*lit._seq(n.args), **lit._kw(n.keywords))
+                    return FOLDED_NONE if r is None else r
             return None
         f.wants_lit = True
         f.override_names = self.override_names
